@@ -21,6 +21,8 @@ type C08Case struct {
 	Periods int   `json:"periods"`  // horizon in periods
 	LogonAt int64 `json:"logon_at"` // initiator: virtual ns at which the peer's Logon arrives
 	Silence bool  `json:"silence"`  // the peer falls silent once, long enough to be probed
+	N2      int   `json:"n2"`       // acceptor: after the first horizon the peer logs out and on again with this interval (0: no re-logon)
+	Relogon int   `json:"relogon"`  // index of the second Logon step
 }
 
 var stdIntervals = []int{1, 2, 3, 5, 10, 20, 30, 60}
@@ -149,6 +151,21 @@ func genC08(t *rapid.T) *C08Case {
 		}
 	}
 	tl.advanceTo(horizon)
+	if cfg.Role == "acceptor" && !c.Silence && rapid.IntRange(0, 3).Draw(t, "relogon") == 0 {
+		// logout handshake and a new Logon with another interval on the same connection
+		c.N2 = rapid.SampledFrom([]int{1, 2, 3, 5, 10, 30}).Draw(t, "n2")
+		tl.steps = append(tl.steps, rig.Step{Op: "in", In: g.logout()})
+		c.Relogon = len(tl.steps)
+		tl.steps = append(tl.steps, rig.Step{Op: "in", In: g.goodLogon(c.N2)})
+		tl.lastIn = tl.now
+		N2 := int64(c.N2) * int64(time.Second)
+		tl.keep = N2 * 8 / 10
+		tl.silentTo = 0
+		tl.advanceTo(tl.now + N2*int64(rapid.IntRange(3, 12).Draw(t, "periods2")))
+		if c.N2 > n {
+			n = c.N2
+		}
+	}
 	c.Steps = tl.steps
 	c.MaxHB = n
 	return c
@@ -163,7 +180,6 @@ func checkC08(c *C08Case, rec *evid.Rec) (vs []pbt.Violation) {
 		return []pbt.Violation{pbt.V("inbound-panic", "handler.Run panicked: %s", tr.RunPanic)}
 	}
 	N := time.Duration(c.N) * time.Second
-	bound := N + N/10 + time.Millisecond
 	// the instant the session became logged on
 	var t0 time.Duration = -1
 	var outs []rig.Emitted
@@ -171,8 +187,21 @@ func checkC08(c *C08Case, rec *evid.Rec) (vs []pbt.Violation) {
 	maxSeq := 0
 	nearDeadline, idle := false, false
 	var end time.Duration
+	nCur := c.N
+	segment := func() {
+		// judge what has been collected so far with the interval in force
+		vs = append(vs, judgeC08(nCur, t0, outs, solicited, end, &nearDeadline, &idle)...)
+	}
 	for i := range c.Steps {
 		res := tr.Steps[i]
+		if c.N2 > 0 && i == c.Relogon-1 {
+			// the peer's Logout: the first logged-on period ends here
+			end = res.At
+			segment()
+			t0, outs, solicited = -1, nil, map[int]bool{}
+			nCur = c.N2
+			continue
+		}
 		end = res.End
 		if t0 < 0 {
 			if res.Logged {
@@ -205,36 +234,7 @@ func checkC08(c *C08Case, rec *evid.Rec) (vs []pbt.Violation) {
 	if t0 < 0 {
 		return []pbt.Violation{pbt.V("harness:not-logged", "logon did not succeed")}
 	}
-	prev := t0
-	prevStrict := t0 // latest outbound instant strictly before the current message's (same-instant rule)
-	for k, o := range outs {
-		if k > 0 && outs[k-1].At < o.At {
-			prevStrict = outs[k-1].At
-		}
-		gap := o.At - prev
-		if gap > bound {
-			vs = append(vs, pbt.V("silent-too-long", "N=%ds: nothing was transmitted between %v and %v (%v > N+N/10)", c.N, prev, o.At, gap))
-			break
-		}
-		if o.Type == rig.THeartbeat && !solicited[k] && k > 0 && o.At-prevStrict < N {
-			vs = append(vs, pbt.V("heartbeat-too-early", "N=%ds: unsolicited Heartbeat at %v, only %v after the previous outbound message at %v", c.N, o.At, o.At-prevStrict, prevStrict))
-			break
-		}
-		if o.Type == rig.THeartbeat && !solicited[k] && k == 0 && o.At-t0 < N {
-			vs = append(vs, pbt.V("heartbeat-too-early", "N=%ds: unsolicited Heartbeat at %v, only %v after logon", c.N, o.At, o.At-t0))
-			break
-		}
-		if o.Type != rig.THeartbeat && gap > N-N/10 && gap < N+N/10 {
-			nearDeadline = true
-		}
-		if gap >= N && k > 0 && outs[k-1].Type == rig.THeartbeat && o.Type == rig.THeartbeat {
-			idle = true
-		}
-		prev = o.At
-	}
-	if len(vs) == 0 && end-prev > bound {
-		vs = append(vs, pbt.V("silent-too-long", "N=%ds: nothing was transmitted between %v and the end of the history at %v", c.N, prev, end))
-	}
+	segment()
 	periods := int((end - t0) / N)
 	nontrivial := periods >= 3 && (nearDeadline || idle)
 	rec.Case(evid.FPs(fmt.Sprintf("%s|%d|%d|%d|%v%v", c.Cfg.Role, c.N, len(c.Steps), len(outs), nearDeadline, idle)), nontrivial)
@@ -247,6 +247,9 @@ func checkC08(c *C08Case, rec *evid.Rec) (vs []pbt.Violation) {
 	}
 	if c.Silence {
 		rec.Hist("peer-silent-until-probed")
+	}
+	if c.N2 > 0 {
+		rec.Hist("relogon-with-another-interval")
 	}
 	rec.Hist(fmt.Sprintf("N<=%d", bucket(c.N)))
 	rec.Extra("outbound_messages_judged", int64(len(outs)))
@@ -276,4 +279,44 @@ func TestC08(t *testing.T) {
 	outerT = t
 	rec := evid.New("C08")
 	pbt.Run(t, "C08", rec, genC08, checkC08)
+}
+
+// judgeC08 applies the two bounds of the property to one logged-on period.
+func judgeC08(n int, t0 time.Duration, outs []rig.Emitted, solicited map[int]bool, end time.Duration, nearDeadline, idle *bool) (vs []pbt.Violation) {
+	if t0 < 0 {
+		return nil
+	}
+	N := time.Duration(n) * time.Second
+	bound := N + N/10 + time.Millisecond
+	prev := t0
+	prevStrict := t0 // latest outbound instant strictly before the current message's (same-instant rule)
+	for k, o := range outs {
+		if k > 0 && outs[k-1].At < o.At {
+			prevStrict = outs[k-1].At
+		}
+		gap := o.At - prev
+		if gap > bound {
+			vs = append(vs, pbt.V("silent-too-long", "N=%ds: nothing was transmitted between %v and %v (%v > N+N/10)", n, prev, o.At, gap))
+			break
+		}
+		if o.Type == rig.THeartbeat && !solicited[k] && k > 0 && o.At-prevStrict < N {
+			vs = append(vs, pbt.V("heartbeat-too-early", "N=%ds: unsolicited Heartbeat at %v, only %v after the previous outbound message at %v", n, o.At, o.At-prevStrict, prevStrict))
+			break
+		}
+		if o.Type == rig.THeartbeat && !solicited[k] && k == 0 && o.At-t0 < N {
+			vs = append(vs, pbt.V("heartbeat-too-early", "N=%ds: unsolicited Heartbeat at %v, only %v after logon", n, o.At, o.At-t0))
+			break
+		}
+		if o.Type != rig.THeartbeat && gap > N-N/10 && gap < N+N/10 {
+			*nearDeadline = true
+		}
+		if gap >= N && k > 0 && outs[k-1].Type == rig.THeartbeat && o.Type == rig.THeartbeat {
+			*idle = true
+		}
+		prev = o.At
+	}
+	if len(vs) == 0 && end-prev > bound {
+		vs = append(vs, pbt.V("silent-too-long", "N=%ds: nothing was transmitted between %v and the end of the history at %v", n, prev, end))
+	}
+	return vs
 }
